@@ -140,19 +140,69 @@ def run_setdim(ctx) -> RuleResult:
                 "R-SETDIM", module, "set_dimensions", last.node,
                 f"the term mask is {text[:100]}: {why} - terms that involve some but not all of the dropped "
                 f"indeterminates survive with those exponents cut off", construct=f"set_dimensions: mask {text[:80]}"))
-        # coefficients filtered by the same mask
-        coefs = kwarg(value, "coefficients")
-        if coefs is not None:
-            ok = text in _txt(coefs)
-            result.ob("coefficients are filtered with the same mask", ok, where, _txt(coefs)[:100])
-            if not ok:
-                result.add(Finding("R-SETDIM", module, "set_dimensions", last.node,
-                                   "exponent rows and coefficient columns are filtered with different masks",
-                                   construct="set_dimensions: coefficient filter"))
     if n == 0:
         raise AnalysisError("set_dimensions: the dropping branch was not recognised")
+    # coefficients filtered by the same mask (every path, comprehension or accumulate-loop form)
+    verdicts = {}
+    for path in ctx.paths_auto(module, func):
+        last = path[-1]
+        if last.kind != "return" or not isinstance(last.node.value, ast.Call):
+            continue
+        value = last.expand(last.node.value)
+        exps, coefs = kwarg(value, "exponents"), kwarg(value, "coefficients")
+        if coefs is None or not (isinstance(exps, ast.Subscript) and isinstance(exps.value, ast.Subscript)):
+            continue
+        text = _txt(exps.slice)
+        if text not in seen:
+            continue
+        verdict = _coefficient_filter(path, last, coefs, text)
+        if verdict is not None:
+            verdicts.setdefault(text, []).append((verdict, last, _txt(coefs)[:100]))
+    for text, found in verdicts.items():
+        bad = [f for f in found if not f[0]]
+        _, last, shown = (bad or found)[0]
+        result.ob("coefficients are filtered with the same mask", not bad, module.loc(last.orig), shown)
+        if bad:
+            result.add(Finding("R-SETDIM", module, "set_dimensions", last.node,
+                               "exponent rows and coefficient columns are filtered with different masks",
+                               construct="set_dimensions: coefficient filter"))
+    if set(verdicts) != seen:
+        raise AnalysisError("set_dimensions: how the coefficients are filtered was not recognised")
     result.floor = 2
     return result
+
+
+def _coefficient_filter(path, last, coefs, mask_text):
+    """True/False: coefficients filtered with the same / a different mask; None: this path does not say."""
+    if not (isinstance(coefs, ast.List) and not coefs.elts):
+        return mask_text in _txt(coefs)
+    # accumulate form:  kept = []; for c, keep in zip(X.coefficients, mask): if keep: kept.append(c)
+    orig = kwarg(last.node.value, "coefficients")
+    if not isinstance(orig, ast.Name):
+        return None
+    appended = set()
+    for target, call in last.muts.get(orig.id, ()):
+        if isinstance(target, ast.Attribute) and target.attr == "append" and isinstance(call, ast.Call) and call.args:
+            elem = call.args[0]
+            if is_S(elem, "elem") and "coefficients" in U(elem.args[0]):
+                appended.add(U(elem.args[1]))
+            else:
+                return False
+        else:
+            return None
+    selected, rejected, other = set(), set(), False
+    for step in path:
+        if step.kind != "assume":
+            continue
+        test = step.expand(step.node)
+        if is_S(test, "elem"):
+            if _txt(test.args[0]) == mask_text:
+                (selected if step.data else rejected).add(U(test.args[1]))
+            else:
+                other = True
+    if not appended and not selected and not rejected:
+        return False if other else None
+    return appended == selected and not (appended & rejected)
 
 
 def _classify_mask(ctx, module, mask, dims):
@@ -328,21 +378,9 @@ def run_clean(ctx) -> RuleResult:
     # isconstant
     imod = ctx.repo.module("numpoly.poly_function.isconstant")
     ifunc = ctx.repo.function(imod.name, "isconstant")
-    verdicts = {}
-    for path in ctx.paths(imod, ifunc, max_iter=1):
-        last = path[-1]
-        if last.kind == "return" and isinstance(last.node.value, ast.Constant):
-            facts = [(U(strip_tags(s.expand(s.node))), s.data) for s in path if s.kind == "assume"]
-            verdicts.setdefault(last.node.value.value, []).append(facts)
-    ok = False
-    for facts in verdicts.get(False, []):
-        # returns False only for: exponent non-zero (any(exponent) true) and any(coefficient) true
-        has_exp = any("exponents" in t and "numpy.any(" in t and ((pol is True and not t.startswith("not ")) or (pol is False and t.startswith("not "))) for t, pol in facts)
-        has_coef = any("coefficients" in t and "numpy.any(" in t and pol is True and not t.startswith("not ") for t, pol in facts)
-        ok = has_exp and has_coef
-        if not ok:
-            break
-    ok = ok and True in verdicts
+    ok = _isconstant_verdict(ctx, imod, ifunc)
+    if ok is None:
+        raise AnalysisError("isconstant: neither the term loop nor an any()/all() over the terms was recognised")
     result.ob("isconstant is False exactly when a non-constant term has a non-zero coefficient", ok, imod.loc(ifunc), "")
     if not ok:
         result.add(Finding("R-CLEAN", imod, "isconstant", ifunc,
@@ -351,6 +389,98 @@ def run_clean(ctx) -> RuleResult:
                            construct="isconstant verdict"))
     result.floor = 6
     return result
+
+
+def _term_formula(ctx, module, node, exp_name, coef_name):
+    """Boolean function of (E, C) = (some exponent of the term non-zero, some coefficient of the term
+    non-zero) that ``node`` computes, or None."""
+    if isinstance(node, ast.BoolOp):
+        parts = [_term_formula(ctx, module, v, exp_name, coef_name) for v in node.values]
+        if any(p is None for p in parts):
+            return None
+        if isinstance(node.op, ast.And):
+            return lambda e, c: all(p(e, c) for p in parts)
+        return lambda e, c: any(p(e, c) for p in parts)
+    if isinstance(node, ast.UnaryOp) and isinstance(node.op, ast.Not):
+        inner = _term_formula(ctx, module, node.operand, exp_name, coef_name)
+        return None if inner is None else (lambda e, c: not inner(e, c))
+    if isinstance(node, ast.Call) and not is_S(node) and node.args:
+        name = ctx.dotted(module, node.func)
+        arg = node.args[0]
+        which = None
+        if name in ("numpy.any", "numpy.count_nonzero"):
+            if isinstance(arg, ast.Compare) and len(arg.ops) == 1 and isinstance(arg.ops[0], ast.NotEq) \
+                    and isinstance(arg.comparators[0], ast.Constant) and arg.comparators[0].value == 0:
+                arg = arg.left
+            if isinstance(arg, ast.Name):
+                which = arg.id
+            if which == exp_name:
+                return lambda e, c: e
+            if which == coef_name:
+                return lambda e, c: c
+        if name == "numpy.all" and isinstance(arg, ast.Compare) and len(arg.ops) == 1 and isinstance(arg.ops[0], ast.Eq) \
+                and isinstance(arg.comparators[0], ast.Constant) and arg.comparators[0].value == 0 and isinstance(arg.left, ast.Name):
+            if arg.left.id == exp_name:
+                return lambda e, c: not e
+            if arg.left.id == coef_name:
+                return lambda e, c: not c
+    return None
+
+
+def _isconstant_verdict(ctx, imod, ifunc):
+    """True: False is returned exactly when some term has E and C; False: a different condition; None: unknown."""
+    table = [(e, c) for e in (False, True) for c in (False, True)]
+    # (a) reduction over the terms:  not any(P for e, c in zip(..))  /  all(Q for ..)
+    returns = [n for n in ast.walk(ifunc) if isinstance(n, ast.Return)]
+    if len(returns) == 1 and returns[0].value is not None:
+        value = returns[0].value
+        negated = False
+        while isinstance(value, ast.UnaryOp) and isinstance(value.op, ast.Not):
+            negated, value = not negated, value.operand
+        if isinstance(value, ast.Call) and isinstance(value.func, ast.Name) and value.func.id in ("any", "all") \
+                and len(value.args) == 1 and isinstance(value.args[0], (ast.GeneratorExp, ast.ListComp)):
+            comp = value.args[0]
+            gen = comp.generators[0]
+            if len(comp.generators) == 1 and not gen.ifs and isinstance(gen.iter, ast.Call) and isinstance(gen.iter.func, ast.Name) \
+                    and gen.iter.func.id == "zip" and isinstance(gen.target, ast.Tuple) and len(gen.target.elts) == 2 \
+                    and all(isinstance(e, ast.Name) for e in gen.target.elts):
+                order = [U(a).rsplit(".", 1)[-1] for a in gen.iter.args]
+                if sorted(order) != ["coefficients", "exponents"]:
+                    return None
+                names = dict(zip(order, (e.id for e in gen.target.elts)))
+                formula = _term_formula(ctx, imod, comp.elt, names["exponents"], names["coefficients"])
+                if formula is None:
+                    return None
+                # any(P): True iff some term has P ; all(Q): False iff some term has not Q
+                if value.func.id == "any":
+                    if not negated:
+                        return False  # isconstant would be True when a term satisfies P
+                    return all(bool(formula(e, c)) == (e and c) for e, c in table)
+                if negated:
+                    return False
+                return all((not formula(e, c)) == (e and c) for e, c in table)
+        if not isinstance(value, ast.Constant):
+            return None
+    # (b) loop over the terms with constant verdicts
+    verdicts = {}
+    for path in ctx.paths(imod, ifunc, max_iter=1):
+        last = path[-1]
+        if last.kind == "return" and isinstance(last.node.value, ast.Constant):
+            facts = [(U(strip_tags(s.expand(s.node))), s.data) for s in path if s.kind == "assume"]
+            verdicts.setdefault(last.node.value.value, []).append(facts)
+        elif last.kind == "return":
+            return None
+    if False not in verdicts and True not in verdicts:
+        return None
+    ok = False
+    for facts in verdicts.get(False, []):
+        # returns False only for: exponent non-zero (any(exponent) true) and any(coefficient) true
+        has_exp = any("exponents" in t and "numpy.any(" in t and ((pol is True and not t.startswith("not ")) or (pol is False and t.startswith("not "))) for t, pol in facts)
+        has_coef = any("coefficients" in t and "numpy.any(" in t and pol is True and not t.startswith("not ") for t, pol in facts)
+        ok = has_exp and has_coef
+        if not ok:
+            break
+    return ok and True in verdicts
 
 
 def run_power(ctx) -> RuleResult:
